@@ -91,7 +91,7 @@ class HashGlobalVarDesc:
         if ebpf.loaded:
             fd = ebpf.__dict__[self.name].fd
             if self.fmt == "x":
-                value = int(value * Expression.FIXED_BASE)
+                value = round(value * Expression.FIXED_BASE)
             update_elem(fd, pack("B", self.count),
                         pack("q" if self.fmt.islower() else "Q", value))
             return
